@@ -35,6 +35,7 @@ type Loop struct {
 }
 
 type FnExec struct {
+	inlineOK     map[*ssa.Function]bool
 	P            *Program
 	Fn           *ssa.Function
 	C            *FuncContract
